@@ -80,7 +80,7 @@ def call_entry(e):
     fn = getattr(MODS[e["mod"]], e["fn"])
     args = copy.deepcopy(e["args"])
     try:
-        r = fn(*args)
+        r = fn(*args, **copy.deepcopy(e.get("kw", {})))
         if "then" in e:
             r = getattr(r, e["then"][0])(*e["then"][1:])
         out = ("ok", r)
@@ -134,6 +134,7 @@ def preload(prop, workers=0):
 
     for m in ("notes", "intervals", "keys", "scales", "chords", "progressions", "value", "meter"):
         MODS[m] = getattr(mingus.core, m)
+    MODS.update(containers=C, instrument=I, midi_track=mt, midi_file_out=mfo, midi_file_in=mfi, sequencer=sq)
     CLASSES.update(
         Suite=C.Suite, Bar=C.Bar, Track=C.Track, NoteContainer=C.NoteContainer, Composition=C.Composition, Note=C.Note,
         OutMidiFile=mfo.MidiFile, InMidiFile=mfi.MidiFile, MidiTrack=mt.MidiTrack, Instrument=I.Instrument, MidiInstrument=I.MidiInstrument,
@@ -606,7 +607,7 @@ def _by_fn():
 
 BY_FN = _by_fn()
 FN_NAMES = sorted(BY_FN)
-FOCUS = ["keys.get_notes", "chords.triads", "chords.sevenths", "progressions.to_chords", "progressions.substitute", "intervals.invert", "chords.tonic", "chords.I", "chords.triad", "chords.seventh", "keys.get_key_signature_accidentals", "chords.from_shorthand", "scales.Major", "chords.determine"]
+FOCUS = ["containers.Note", "containers.Note", "scales.Diatonic", "scales.Dorian", "scales.Major", "containers.NoteContainer", "keys.get_notes", "chords.triads", "chords.sevenths", "progressions.to_chords", "progressions.substitute", "intervals.invert", "chords.tonic", "chords.I", "chords.triad", "chords.seventh", "keys.get_key_signature_accidentals", "chords.from_shorthand", "scales.Major", "chords.determine"]
 
 
 def generate(rng, prop, tier):
